@@ -1,5 +1,6 @@
 """C02, tranche idx (coq/theories/RulesIdxModel.v + RulesIdxProofs.v): performance.replace_subscript_looping,
-fixes.simplify_transposes (models + theorems), fixes.inline_math_comprehensions (witness programs only).
+fixes.simplify_transposes (value semantics), fixes.inline_math_comprehensions (harness/c02_idx_inl.py, store semantics
+of the perf tranche).
 
 Plug-in of harness/c02.py:  check(run, mods, wd, rnd) -> dict.  On every run:
   * rule correspondence: fragment programs ('x = <value>' bindings + 'y = <expression>'; exhaustive small families +
@@ -408,7 +409,7 @@ def rand_prog(rnd):
 
 # ------------------------------------------------------------------------------------------------ findings
 RULES = {"RSub": "performance.replace_subscript_looping", "RTr": "fixes.simplify_transposes"}
-MODELLED = list(RULES.values())
+MODELLED = list(RULES.values()) + ["fixes.inline_math_comprehensions"]
 
 
 def has_iter(v) -> bool:
@@ -658,6 +659,16 @@ def check(run, mods, wd, rnd) -> dict:
             failures.append(case)
         else:
             reproduced.setdefault(m.id, (m, []))[1].append(case)
+    # second part: inline_math_comprehensions over the store semantics of the perf tranche
+    from . import c02_idx_inl as INL
+    istats, ihist, idis, isem, iprob, ifail, irep = INL.check(run, mods, wd, rnd, kf)
+    disagreements += idis
+    sem_bad += isem
+    problems += iprob
+    failures += ifail
+    hist.update(ihist)
+    for fid, (f, hits) in irep.items():
+        reproduced.setdefault(fid, (f, []))[1].extend(hits)
     # witness programs
     n_wit = 0
     open_ids = {f.id for f in kf if f.kind == "finding"}
@@ -700,14 +711,17 @@ def check(run, mods, wd, rnd) -> dict:
         run.notes.append(f"idx: {len(disagreements)} correspondence / {len(sem_bad)} semantics disagreements / {len(problems)} rule problems")
     samples = [s for (_, s) in list(fired)[:: max(1, len(fired) // 5)]][:5]
     return {
-        "evaluations": len(cases) + len(sem) + 2 * len(fired) + n_wit,
-        "distinct_nontrivial": len(fired),
+        "evaluations": len(cases) + len(sem) + 2 * len(fired) + n_wit + istats["inl_rule_cases"]
+        + istats["inl_semantic_cases"] + 2 * istats["inl_fired"],
+        "distinct_nontrivial": len(fired) + istats["inl_fired"], **istats,
         "rule": ("programs of the fragment ('x = value' bindings + 'y = expression'): exhaustive families (index loops: "
                  "every element expression of depth <= 1 over {x[i], 1, x, i, w, x_i} + deeper ones x 11 bindings of x; "
                  "transposes: zip depth 0..5 x 6 contexts x 17 bindings of x) and seeded random programs; each through both "
                  "real rules, parsed back and compared with the model in Coq; non-trivial = the real rule changed the "
                  "program, distinct by (rule, source). Semantics: every input and output program under CPython vs "
-                 "RulesIdxModel.eval (exception class + value)."),
+                 "RulesIdxModel.eval (exception class + value). inline_math_comprehensions: modules 'pre; y = V; mid; z = "
+                 "sum|len(y); post' with one candidate assignment (6 pre x 12 values x 11 mid + variants of the use) and "
+                 "seeded random ones, real rule vs RulesIdxInlModel.inl, CPython vs run_i (exception class + event trace)."),
         "samples": samples, "modelled_rules": MODELLED, "exhaustive_part": n_exh, "random_part": len(progs) - n_exh,
         "histogram": dict(hist), "rule_cases": len(cases), "semantic_cases": len(sem),
         "semantic_mismatches": len(sem_bad), "correspondence_disagreements": len(disagreements), "rule_problems": len(problems),
@@ -719,12 +733,16 @@ def check(run, mods, wd, rnd) -> dict:
 
 
 TRUSTED_BASE = [
+    "RulesIdxInlModel.run_i = the statements of RulesPerfModel + sum / len: validated against CPython (exception class + "
+    "event trace) on every input and output module of the second part; printer / reader of harness/c02_perf.py",
     "program <-> Python text printer and ast reader in harness/c02_idx.py (round trip asserted on every case)",
     "RulesIdxModel.eval (items / getitem / zipn / beval) is a definition, validated against CPython (exception class + "
     "value of y) on every input and output program of the correspondence",
 ]
 UNMODELLED = [
-    "fixes.inline_math_comprehensions: no model (witness programs of F02idx-6/7 and of the repairs 13da1a3, eca6cd4 only)",
+    "fixes.inline_math_comprehensions: modules with exactly one assignment the rule looks at, at module level; augmented / "
+    "annotated assignments, uses inside functions and loops, set comprehensions, range / map / filter / reversed / set "
+    "values, rebound builtins; the theorem covers values over lists / tuples / displays and plain statements in between",
     "performance.replace_subscript_looping: the numpy forms (x[i, :], x[:, i], x.shape[0], .T), generator / set / dict "
     "comprehensions, a sequence expression that is not a name (F02idx-3), elements that change x (F02idx-4), x = i",
     "fixes.simplify_transposes: the numpy forms (.T, np.array, np.matmul), zip with several / keyword arguments",
